@@ -337,14 +337,19 @@ def node_check(pid, tier, seed):
             # a long run of (mostly empty) blocks over a populated state, a deposit to the burn address at both ends, one crash anywhere: whatever a module
             # keeps in process memory across blocks (counters, "last done at height" marks, caches) is lost by the restarted node and kept by the twin
             guards = guard_txs()
-            long_shape = [1] + [0] * (8 if q else 11) + [1 + len(guards), 0]
+            long_shape = [2] + [0] * (8 if q else 11) + [2 + len(guards), 0]
             scheds3, st3, tr3 = node_schedules(work, [long_shape], 1, [0])
             states += st3
             trans += tr3
             dep = lambda n: dict(msgs=[dict(type='bank.Send', to='burn', denom='umed', amt=n, **{'from': 'a1'})], signers=['a1'], fee=0, exec='none')
             # the late block also carries requests that stateful guards must refuse on the populated state (delete a denom that holds tokens, append by a
             # non-writer, re-create what exists, act on a token that was handed over): a guard that lives in process memory is gone after a restart
-            blocks = [[dep(7)]] + [[] for _ in long_shape[1:-2]] + [[dep(3)] + guards, []]
+            # ... and, in the first block, a two-message transaction whose second message fails after the first has appended a record (everything is
+            # rolled back); the late block appends to the same topic: what the rolled-back work left in process memory is gone after a restart
+            rec = lambda w, v: dict(type='aol.AddRecord', owner='a1', topic='t1', writer=w, key='k', val=v, feePayer='none')
+            rolled_back = dict(msgs=[rec('a2', 'rb'), rec('a1', 'never')], signers=['a2', 'a1'], fee=0, exec='none')
+            good = dict(msgs=[rec('a2', 'late')], signers=['a2'], fee=0, exec='none')
+            blocks = [[dep(7), rolled_back]] + [[] for _ in long_shape[1:-2]] + [[dep(3), good] + guards, []]
             for si, sc in enumerate(scheds3):
                 jobs.append(dict(id='%s-long-%d' % (pid, si), cfg={}, prefix=populated_prefix(), blocks=blocks, schedule=sc['schedule'], upgradeAt=0))
             shapes = shapes + [long_shape]
